@@ -311,7 +311,7 @@ where
     Map: Fn(I::Item) -> Out + Send + Sync,
     Fil: Fn(&Out) -> bool + Send + Sync,
 {
-    assert!(false, "C01: an ordered computation went through the unordered collect_x kernel (map)");
+    assert!(false, "C01,C02: an ordered computation went through the unordered collect_x kernel (map)");
 }
 
 pub fn forbid_filtermap_col_x<I, FO, Out, FilterMap, Fil>(_params: Params, _iter: I, _filter_map: FilterMap, _filter: Fil, _output: &mut SplitVec<Out, Recursive>)
@@ -322,7 +322,7 @@ where
     FilterMap: Fn(I::Item) -> FO + Send + Sync,
     Fil: Fn(&Out) -> bool + Send + Sync,
 {
-    assert!(false, "C01: an ordered computation went through the unordered collect_x kernel (filter_map)");
+    assert!(false, "C01,C02: an ordered computation went through the unordered collect_x kernel (filter_map)");
 }
 
 pub fn forbid_flatmap_col_x<I, OutIter, Out, FlatMap, Fil>(_params: Params, _iter: I, _flat_map: FlatMap, _filter: Fil, _output: &mut SplitVec<Out, Recursive>)
@@ -333,5 +333,5 @@ where
     FlatMap: Fn(I::Item) -> OutIter + Send + Sync,
     Fil: Fn(&Out) -> bool + Send + Sync,
 {
-    assert!(false, "C01: an ordered computation went through the unordered collect_x kernel (flat_map)");
+    assert!(false, "C01,C02: an ordered computation went through the unordered collect_x kernel (flat_map)");
 }
